@@ -20,6 +20,7 @@ bool g_hard;        /* a call failed with errno != EINTR */
 bool g_zero;        /* a call returned 0 */
 uint64_t g_fuel;    /* finite, arbitrary number of EINTRs still to come */
 unsigned g_calls;   /* saturating call counter (cover points only) */
+unsigned g_wa_calls; /* calls of the write_all contract (where it replaces write_all) */
 uint64_t g_w;       /* witness stream position */
 uint8_t g_wval;     /* byte that arrived there */
 unsigned g_wcount;  /* number of times it arrived */
@@ -63,6 +64,7 @@ static inline void c12_write_env_init(int fd)
 	g_total = 0;
 	g_hard = g_zero = false;
 	g_calls = 0;
+	g_wa_calls = 0;
 	g_w = verif_nd_u64("w");
 	g_wval = 0;
 	g_wcount = 0;
